@@ -28,4 +28,15 @@ int w11_keep_x(std::vector<int>& v) { const int x = v[0]; v[0] = 5; return x; }
 std::size_t w12_subst_n(std::vector<int>& v) { const std::size_t n = v.size(); v[0] = 1; return n; }
 std::size_t w13_keep_n(std::vector<int>& v) { const std::size_t n = v.size(); v.push_back(1); return n; }
 int w14_keep_x(std::vector<S>& v) { const int x = v[0].a; v[0].bump(); return x; }
+// N6 memo elimination: a one-entry memo around a lookup is the lookup when nothing it reads changes in the memo's scope
+int w15_subst_val(const std::vector<int>& keys, const std::vector<int>& table) {
+    bool have = false; int last_key = 0; int val = 0; int t = 0;
+    for (int k : keys) { if (!have || k != last_key) { last_key = k; val = table[k]; have = true; } t += val; }
+    return t;
+}
+int w16_keep_val(const std::vector<int>& keys, std::vector<int>& table) {
+    bool have = false; int last_key = 0; int val = 0; int t = 0;
+    for (int k : keys) { if (!have || k != last_key) { last_key = k; val = table[k]; have = true; } t += val; table[0] = t; }
+    return t;
+}
 }
